@@ -537,13 +537,27 @@ gen_c19 (gen_t *g, rng_t *r, scenario_t *sc)
     }
 }
 
+static int64_t last_sx, last_sy;      /* scale of the last near-affine transform generated, 0 if none */
+
 static void
 extreme_transform (gen_t *g, rng_t *r, int slot)
 {
     int64_t a[16] = { 0, 0, 0, slot, 0, 65536, 0, 0, 0, 65536, 0, 0, 0, 65536 };
     int64_t *m = a + 5;
-    switch (rng_n (r, 8))
+    switch (rng_n (r, 10))
     {
+    case 8: case 9:
+	/* a plain scale whose bottom row is not quite (0,0,1): everything about it looks
+	 * affine except one entry */
+	m[0] = rng_chance (r, 1, 2) ? 65536 : rng_range (r, 20000, 3 * 65536); m[4] = rng_chance (r, 1, 2) ? 65536 : rng_range (r, 20000, 3 * 65536);
+	m[2] = rng_range (r, 0, 8) * 65536; m[5] = rng_range (r, 0, 4) * 65536;
+	switch (rng_n (r, 3))
+	{
+	case 0: m[7] = (rng_chance (r, 1, 2) ? 1 : -1) * rng_range (r, 100, 6000); break;
+	case 1: m[6] = (rng_chance (r, 1, 2) ? 1 : -1) * rng_range (r, 100, 6000); break;
+	default: m[8] = rng_chance (r, 1, 2) ? 2 * 65536 : 40000; break;
+	}
+	break;
     case 0: m[0] = rng_range (r, 1, 300); m[4] = rng_range (r, 1, 300); break;                        /* huge magnification */
     case 1: m[0] = rng_range (r, 1000, 32767) * 65536ll; m[4] = rng_range (r, 1000, 32767) * 65536ll; break;   /* huge minification */
     case 2: m[2] = (rng_chance (r, 1, 2) ? 1 : -1) * rng_range (r, 32000, 32767) * 65536ll; break;     /* translation at the 16.16 limit */
@@ -553,7 +567,43 @@ extreme_transform (gen_t *g, rng_t *r, int slot)
     case 6: m[0] = 65536 + rng_range (r, -2, 2); m[4] = 65536 + rng_range (r, -2, 2); m[2] = rng_range (r, -3, 3) * 32768; m[5] = rng_range (r, -3, 3) * 32768; break;  /* almost identity: cover-flag edge */
     default: { int i; for (i = 0; i < 9; i++) m[i] = rng_range (r, -0x7fffffffll, 0x7fffffffll); break; }
     }
+    last_sx = last_sy = 0;
+    if (m[1] == 0 && m[3] == 0 && m[0] > 0 && m[4] > 0 && (m[6] || m[7] || m[8] != 65536)) { last_sx = m[0]; last_sy = m[4]; }
     sc_addv (g->sc, MOP_SET_TRANSFORM, 14, a);
+}
+
+/* exact-fit flavour: untransformed requests that consume source and mask to
+ * their very last pixel of their very last row, with minimal strides and the
+ * storage flush against the guard page: the classic place for a vector loop
+ * to load one word too many */
+static void
+gen_c04_fit (gen_t *g, rng_t *r, scenario_t *sc)
+{
+    static const pixman_format_code_t mf[] = { PIXMAN_a1, PIXMAN_a8, PIXMAN_a1, PIXMAN_a4, PIXMAN_a8r8g8b8 };
+    static const pixman_format_code_t sf[] = { PIXMAN_a8r8g8b8, PIXMAN_x8r8g8b8, PIXMAN_r5g6b5, PIXMAN_a8, PIXMAN_a1, PIXMAN_r8g8b8, PIXMAN_a1r5g5b5, PIXMAN_a4r4g4b4 };
+    static const pixman_format_code_t df[] = { PIXMAN_a8r8g8b8, PIXMAN_x8r8g8b8, PIXMAN_r5g6b5, PIXMAN_a8, PIXMAN_a8b8g8r8, PIXMAN_r8g8b8 };
+    static const int ws[] = { 32, 64, 96, 128, 31, 33, 16, 8, 24, 48, 1, 7 };
+    static const int ops[] = { 3, 1, 12, 3, 8, 5 };
+    uint32_t chains = (1u << REF_CHAIN) | 1u;
+    int W = ws[rng_n (r, 12)], H = (int)rng_range (r, 1, 3), i, k, fi[3], n_req = (int)rng_range (r, 3, 8);
+    pixman_format_code_t want[3];
+    for (k = 0; k < 5; k++) chains |= 1u << rng_n (r, N_CHAINS);
+    sc_set (sc, "chains", chains);
+    want[0] = df[rng_n (r, 6)]; want[1] = sf[rng_n (r, 8)]; want[2] = mf[rng_n (r, 5)];
+    for (k = 0; k < 3; k++) for (fi[k] = 0; fi[k] < sim_n_formats - 1; fi[k]++) if (sim_formats[fi[k]] == want[k]) break;
+    /* flags 8: storage ends flush against the upper guard page; 0: starts flush against the lower one */
+    gen_bits_exact (g, 0, fi[0], W, H, 0, rng_chance (r, 1, 5), 0, 8 * (int)rng_n (r, 2));
+    gen_bits_exact (g, 2, fi[1], W, H, 0, rng_chance (r, 1, 5), 0, 8 * (int)rng_n (r, 2));
+    gen_bits_exact (g, 3, fi[2], W, H, 0, 0, 0, 8 * (int)rng_n (r, 2));
+    gen_solid (g, 4);
+    sc->ops[sc->n_ops - 1].a[M_PREFIX + 1] = rng_chance (r, 2, 3) ? 65535 : 30000;        /* opaque more often than not */
+    for (i = 0; i < n_req; i++)
+    {
+	int src = rng_chance (r, 1, 2) ? 4 : 2, mask = rng_chance (r, 2, 3) ? 3 : -1;
+	int off = rng_chance (r, 1, 2) ? 0 : (int)rng_range (r, 0, W - 1), offy = rng_chance (r, 2, 3) ? 0 : (int)rng_range (r, 0, H - 1);
+	int64_t c[16] = { 0, 0, 0, ops[rng_n (r, 6)], src, mask, 0, off, offy, off, offy, rng_chance (r, 1, 2) ? 0 : off, offy, W - off, H - offy };
+	sc_addv (sc, MOP_COMPOSITE, 15, c);
+    }
 }
 
 static void
@@ -577,9 +627,23 @@ gen_c04 (gen_t *g, rng_t *r, scenario_t *sc)
 	case 2: gen_bits_exact (g, i, gen_pick_format (g, FC_ANY), (int)rng_range (r, 32760, 40000), 1, 0, 0, 0, 8); break;
 	default: gen_source (g, i, rng_chance (r, 1, 2) ? FC_FASTPATH : FC_ANY, 48); break;
 	}
+	last_sx = 0;
 	if (rng_chance (r, 1, 2)) extreme_transform (g, r, i); else if (rng_chance (r, 1, 2)) gen_transform (g, i, TC_ANY);
 	if (rng_chance (r, 2, 3)) gen_filter (g, i, 1);
 	if (rng_chance (r, 2, 3)) gen_repeat (g, i);
+	if (last_sx && g->s[i].kind == MOP_BITS)
+	{
+	    /* a request that, by the scale alone, just about covers the whole source: the cover
+	     * flags must be computed from the transform that is really applied */
+	    int64_t f[9] = { 0, 0, 0, i, rng_chance (r, 2, 3) ? PIXMAN_FILTER_NEAREST : PIXMAN_FILTER_BILINEAR, 1, 1, 0, 0 };
+	    int64_t rp[5] = { 0, 0, 0, i, rng_chance (r, 2, 3) ? 0 : 2 };
+	    int64_t c[16] = { 0, 0, 0, rng_chance (r, 1, 2) ? 1 : 3, i, -1, 0, 0, 0, 0, 0, 0, 0, 0, 0 };
+	    sc_addv (sc, MOP_SET_FILTER, 9, f);
+	    sc_addv (sc, MOP_SET_REPEAT, 5, rp);
+	    c[13] = (int64_t)g->s[i].w * 65536 / last_sx + rng_range (r, -2, 3);
+	    c[14] = (int64_t)g->s[i].h * 65536 / last_sy + rng_range (r, -1, 2);
+	    sc_addv (sc, MOP_COMPOSITE, 15, c);
+	}
     }
     if (rng_chance (r, 1, 4)) { gen_bits (g, 6, FC_ALPHA, 40, 12, 0x9); gen_alpha_map (g, rng_chance (r, 1, 2) ? 0 : 2, 6); }
     if (rng_chance (r, 1, 3)) gen_clip (g, 0, 0);
@@ -631,7 +695,7 @@ generate (uint64_t seed, int tier, const char *property, scenario_t *sc)
     gen_t g;
     rng_seed (&r, seed, 3);
     gen_init (&g, &r, sc, 0, 0);
-    if (property && !strcmp (property, "C04")) gen_c04 (&g, &r, sc);
+    if (property && !strcmp (property, "C04")) { if (rng_chance (&r, 1, 4)) gen_c04_fit (&g, &r, sc); else gen_c04 (&g, &r, sc); }
     else if (property && !strcmp (property, "C19")) gen_c19 (&g, &r, sc);
     else if (rng_chance (&r, 1, 4)) gen_c02_scaled (&g, &r, sc);
     else gen_c02 (&g, &r, sc);
